@@ -249,6 +249,19 @@ Example json_history_latest :
   /\ json_count "samples_summary" (run_json [("samples_summary", 1); ("samples_info", 2); ("samples_summary", 3)]) = 1.
 Proof. vm_compute. split; reflexivity. Qed.
 
+(* save, load, save something newer, load again through the same store: the second load returns the second table; a
+   store that kept the first loaded table would return [("samples", Some 1); ("samples", Some 1); ...] *)
+Example store_history_latest :
+  run_store [] [SSave "samples" 1; SSave "summary" 10; SLoad "samples"; SLoad "info"; SSave "samples" 2; SLoad "samples";
+                SLoad "summary"; SSave "summary" 20; SLoad "samples"; SLoad "summary"]
+  = [("samples", Some 1); ("info", None); ("samples", Some 2); ("summary", Some 10); ("samples", Some 2); ("summary", Some 20)].
+Proof. vm_compute. reflexivity. Qed.
+
+Example store_history_last_save_nonvacuous :
+  assoc string_dec "samples" (rev (saves_of [SSave "samples" 1; SLoad "samples"; SSave "samples" 2])) = Some 2
+  /\ filter is_save [SSave "samples" 1; SLoad "samples"; SSave "samples" 2] = [SSave "samples" 1; SSave "samples" 2].
+Proof. vm_compute. split; reflexivity. Qed.
+
 Example reserved_reload_ok_by_position :
   res_bind (csv_roundtrip_pos nid nid Nat.add true [] (sorted_walk t_reserved) (from_lists true (sorted_walk t_reserved) rows2))
            (observe [] (sorted_walk t_reserved)) = Ok (expected rows2).
